@@ -150,8 +150,9 @@ def retOf (name : String) (e : Entry) (op : Op) : String :=
   | .sparseCount => toString (sparseCount e).2
   | .sparseReset => toString (sparseReset e).2
   | .sparseNext =>
-    let (_, ok, o, l) := sparseNext e
-    s!"{if ok then "ok" else "warn"},{o},{l}"
+    match (sparseNext e).2 with
+    | some (o, l) => s!"ok,{o},{l}"
+    | none => "warn,0,0"
   | .xattrReset => toString (xattrReset e).2
   | .xattrNext =>
     match (xattrNext e).2 with
